@@ -318,18 +318,21 @@ Proof. exact stream_partition_s. Qed.
 Print Assumptions stream_partition_static.
 
 (* non-vacuity: the accepted example (three predecessors + two static values): four chunks;
-   the slot PI.X = [11; 2] is carried by the first chunk only *)
+   the slots PI.X = [11; 2] and I.Y = [10; 3] are carried by the first chunk only *)
 Example stream_partition_nonvacuous :
   exists ckss v vs,
     compile_s ex_env (TStruct 2) ex_decls ex_statics = CAccept ckss /\
     run_invoke_s ex_env (TStruct 2) ex_decls ex_statics ckss ex_srcs = Ok v /\
     run_stream_s ex_env (TStruct 2) ex_decls ex_statics ckss (map (fun s => [s]) ex_srcs) = Ok vs /\
     List.length vs = 4 /\
-    map (fun c => take_path ex_env c [11; 2]%N) vs = [Ok (VInt 7); Ok (VInt 0); Ok (VInt 0); Ok (VInt 0)] /\
-    take_path ex_env v [11; 2]%N = Ok (VInt 7).
+    (* below a pointer the other chunks have not instantiated, the slot cannot be read at all *)
+    map (fun c => take_path ex_env c [11; 2]%N) vs = [Ok (VInt 7); Err ESrc; Err ESrc; Err ESrc] /\
+    take_path ex_env v [11; 2]%N = Ok (VInt 7) /\
+    map (fun c => take_path ex_env c [10; 3]%N) vs = [Ok (VStr "deep"); Ok (VStr ""); Ok (VStr ""); Ok (VStr "")] /\
+    take_path ex_env v [10; 3]%N = Ok (VStr "deep").
 Proof.
   eexists. eexists. eexists. split; [vm_compute; reflexivity|]. split; [vm_compute; reflexivity|].
-  split; [vm_compute; reflexivity|]. split; vm_compute; [reflexivity|split; reflexivity].
+  split; [vm_compute; reflexivity|]. vm_compute. repeat split; reflexivity.
 Qed.
 
 (* ---------------------------------------------------------------- predecessors' outputs *)
